@@ -122,7 +122,7 @@ def build_ir(root, cfgs, flavour="release", features="std", log=None):
 
 def build_replay(root, cfgs, profile="release", features="std"):
     """native replay binary (harness + real crate, unwinding panics); returns its path"""
-    tdir = os.path.join(root, "target-replay")
+    tdir = os.path.join(root, "target-replay" + ("" if features == "std" else "-" + re.sub(r"\W", "_", features)))
     e = env()
     e["RUSTFLAGS"] = " ".join(cfg_flags(cfgs)) + " -A warnings"
     cmd = ["cargo", "build", "--offline", "--example", "verif_replay", "--features", features, "--target-dir", tdir]
